@@ -7,7 +7,7 @@ import lib
 from props import fsobs
 
 ID = 'C12'
-GEN_FILES = ['T_files_p8', 'T_files_build']
+GEN_FILES = ['T_files_p8', 'T_files_build', 'T_p8scii']
 COQ_PROPERTY = 'theories/Properties/C12.vo'
 COQ_EXTRA = []
 MODEL = ('ExC12', 'c12_main.ml')
@@ -36,7 +36,8 @@ CLAIM = dict(
           "HOME and file system, a path process_includes goes on to open lies under the include root), "
           "C12_include_root_sound (the root is a carts folder the cart lies in, or the cart's own directory), "
           "C12_include_rejects_outside (a string denoting a place outside the root is rejected with "
-          "P8IncludeOutsideOfAllowedDirectory), C12_include_ok_spec; C12_require_contained (every candidate handed to "
+          "P8IncludeOutsideOfAllowedDirectory), C12_include_ok_spec, C12_include_model_holds (for carts outside the "
+          "carts folders the model's accesses satisfy the monitor's predicate with the Spec-computed root); C12_require_contained (every candidate handed to "
           "os.path.isfile / open lies under the directory its load-path pattern names, for every string the filter "
           "lets through and every load path made of patterns DIR/NAME?SUFFIX), C12_require_contained_any_path, "
           "C12_require_default_path (default path: under the requiring file's directory), C12_require_filter_spec, "
@@ -49,7 +50,7 @@ CLAIM = dict(
           "load path with a pattern like ?/../../x. Tie: the SHAPES of the two containment tests and of the require "
           "filter, the regex sources, PICO8_CART_PATHS, DEFAULT_LUA_PATH, split/replace characters are regenerated "
           "from the source and pinned (a reverted fix breaks a pin and the search replays the witness); the path "
-          "functions are compared with posixpath on ~250,000 inputs; the resolution logic with file.from_file / "
+          "functions are compared with posixpath on ~335,000 inputs (incl. unusual HOME values); the resolution logic with file.from_file / "
           "tool.main(build) in a sandbox tree with canary files, incl. the complete probe/open trace of random package "
           "graphs; the Spec-only monitor runs on the recorded accesses."),
     note=("Trusted: Coq kernel+VM, extraction, OCaml glue, the in-process wrappers around builtins.open / "
@@ -195,6 +196,9 @@ def generate(tier, rng):
     for cwd in ['w/proj', 'w', '']:
         for i in range(0, len(strs), 1500):
             yield {'kind': 'paths', 'cwd': cwd, 'strs': strs[i:i + 1500], 'pairs': []}
+    tilde = [s for s in strs if '~' in s] + ['~/' + s for s in strs if len(s) <= 6] + ['~' + s for s in strs if len(s) <= 4]
+    for hm in ['/', '/h/', '//h', '/h//', '/a/../h', 'rel/home']:      # expanduser with unusual HOME values
+        yield {'kind': 'paths', 'cwd': 'w', 'home': hm, 'strs': tilde, 'pairs': []}
     short = [s for s in strs if s.count('/') <= 3 and len(s) <= 7]
     pairs = [[a, b] for a in short for b in short]
     for i in range(0, len(pairs), 20000):
@@ -284,6 +288,7 @@ def run_impl(case):
     home = S + '/home'
     if case['kind'] == 'paths':
         cwd = os.path.join(S, case['cwd']) if case['cwd'] else S
+        home = case.get('home') or home
         rows = []
         with fsobs.environment(cwd=cwd, home=home):
             for s in case['strs']:
@@ -414,7 +419,8 @@ def model_requests(case, obs):
     if case['kind'] == 'include':
         files = fsobs.hxlist(_SB['files'] or [])
         return ['root %s %s %s' % (h(obs['cwd']), h(obs['home']), h(obs['cart_arg'])),
-                'inc %s %s %s %s %s' % (h(obs['cwd']), h(obs['home']), h(obs['cart_arg']), h(obs['inc']), files)]
+                'inc %s %s %s %s %s' % (h(obs['cwd']), h(obs['home']), h(obs['cart_arg']), h(obs['inc']), files),
+                'incacc %s %s %s %s %s' % (h(obs['cwd']), h(obs['home']), h(obs['cart_arg']), h(obs['inc']), files)]
     if case['kind'] == 'require':
         return ['filter ' + h(obs['req']),
                 'eff %s %s' % (h(obs['lp_arg']) if obs['lp_arg'] is not None else '~',
@@ -461,6 +467,12 @@ def compare(case, obs, answers):
             got = obs['outcome']
         if answers[1] != got:
             return '#include %r from %r: implementation %s, model %s' % (obs['inc'], obs['cart_arg'], got, answers[1])
+        # the accesses themselves: isfile probe, then open, of the resolved path (the cart is named on the command line)
+        evs = [e for e in obs['events'] if not (e[0] == 'o' and e[1] == obs['cart_arg'])]
+        tr = ','.join('%s:%s' % (e[0], fsobs.hx(e[1])) for e in evs) or '~'
+        exp = '%s %s' % (tr, 'false' if obs['outcome'] == 'OK' else 'true')
+        if answers[2] != exp:
+            return '#include %r from %r: implementation accesses %s, model %s' % (obs['inc'], obs['cart_arg'], exp, answers[2])
         return None
     if case['kind'] == 'graph':
         tr, _, outcome = answers[0].partition(' ')
